@@ -9,6 +9,10 @@ Theorem C19_cmp_spec : forall x a b,
   distance_cmp x a b = lex_compare (distance x a) (distance x b).
 Proof. exact cmp_spec. Qed.
 
+(* DistanceLz is the number of leading zero bits of the distance: all lengths *)
+Theorem C19_lz_spec : forall a b, distance_lz a b = leading_zeros (distance a b).
+Proof. exact distance_lz_spec. Qed.
+
 (* it is a total preorder ... *)
 Theorem C19_preorder : forall x,
   (forall a, distance_cmp x a a <> Gt) /\
@@ -83,6 +87,7 @@ Proof.
 Qed.
 
 Print Assumptions C19_cmp_spec.
+Print Assumptions C19_lz_spec.
 Print Assumptions C19_preorder.
 Print Assumptions C19_sym.
 Print Assumptions C19_zero_iff.
